@@ -77,4 +77,8 @@ CLAIMS = {
   technique="C01 traffic oracle on a healthy connection while a raw peer injects faults on other connections of the same socket, API/listener probes afterwards, refused-inproc-connect probe, reconnect-gap monitor at a raw listener, complete-grid check of the back-off arithmetic through the facade",
   level_text="Held on every scenario explored: the healthy stream stays exactly-once and in order under each injected fault (incl. a 400-connection burst), the socket's API answers and its listener serves a new honest peer, a refused inproc connector leaves the binder working, reconnect gaps respect RECONNECT_IVL / IVL_MAX / geometric growth and traffic resumes; the back-off arithmetic is enumerated completely on its grid. Exploration plus one finite sub-space enumerated.",
   level_note="Reconnect gaps are judged with 350 ms slack because the passive reconnect runs on a 100 ms tick; faults are injected one at a time in quick, three at a time in some thorough scenarios."),
+ "C09": dict(
+  technique="poll-indexed cancellation wrappers (drop at the n-th Pending; drop after being woken, unpolled - what select! does) around public API futures racing with the awaited event, followed by the C01/C02 conservation oracle on the continuing traffic and next-valid-call probes",
+  level_text="Held on every (socket, operation, cancellation point, delay, timeout) explored: after the dropped future the stream contains every queued message exactly once and whole, a cancelled send is all-or-nothing, and REQ/REP/DEALER/ROUTER accept the next valid call. Exploration; the evidence lists which cancellation points were actually reached.",
+  level_note="The number of Pending polls an operation goes through depends on scheduling (1-2 for most operations here); DEALER egress loss/reorder is recorded under C01 and not re-judged."),
 }
